@@ -1596,6 +1596,175 @@ func (g *w13Gen) genReaderConn(binary bool) w13Conn {
 	return c
 }
 
+// ---------------------------------------------------------------------------------------------
+// case shape "reply batch". A binary connection that finds further complete frames in its read buffer
+// answers into the 4096-byte StreamWriterBuffer instead of writing every reply (ProcessLockResultCommand,
+// "buffered" branch) and flushes when the next 64-byte reply would not fit / when the read is used up.
+// Value-less replies take 64 bytes, a reply that carries the key's stored value takes 64 + len(value
+// frame). The shape puts N well-formed LOCK / UNLOCK frames into one read (or into reads of b frames)
+// such that the last k replies carry a stored value whose length is chosen around the point where the
+// batched replies reach the end of the buffer; the value comes from an earlier connection that keeps
+// the hold. All frames are well-formed.
+
+const w13WriterBuf = 4096
+
+// w13BatchIndex simulates the fill of the writer buffer: n frames of 64 bytes arrive in reads of
+// "burst" frames (at most 64: the reader buffer has 4096 bytes); it returns, for frame number at (0-based),
+// whether its reply is batched and the fill before it, assuming every earlier reply is value-less.
+func w13BatchIndex(n, burst, at int) (batched bool, index int) {
+	if burst <= 0 || burst > 64 {
+		burst = 64
+	}
+	pos := 0
+	for pos < n {
+		m := burst
+		if n-pos < m {
+			m = n - pos
+		}
+		start := pos
+		if pos == 0 {
+			// the very first frame is parsed by Server.checkProtocol and answered directly
+			if at == 0 {
+				return false, 0
+			}
+			start = 1
+		}
+		cnt := pos + m - start // frames handled by one iteration of BinaryServerProtocol.Process
+		idx := 0
+		for f := start; f < pos+m; f++ {
+			if f == at {
+				return cnt >= 2, idx
+			}
+			if cnt >= 2 {
+				if idx += 64; idx+64 > w13WriterBuf {
+					idx = 0 // flushed
+				}
+			}
+		}
+		pos += m
+	}
+	return false, 0
+}
+
+func (g *w13Gen) batchFrame(typ byte, flag byte, key, id [16]byte, expried uint16, count uint16, req byte) []byte {
+	f := w13Frame(typ, req)
+	f[19], f[20] = flag, 0
+	copy(f[21:37], id[:])
+	copy(f[37:53], key[:])
+	f[57], f[58] = byte(expried), byte(expried>>8)
+	f[61], f[62] = byte(count), byte(count>>8)
+	return f
+}
+
+func (g *w13Gen) genReplyBatchCase(c *w13Case) []w13Conn {
+	key, holder, other := g.keys[0], g.ids[0], g.ids[1]
+	n := rapid.SampledFrom([]int{2, 3, 8, 32, 60, 61, 62, 63, 64, 65, 100, 5, 4}).Draw(g.t, "batchFrames")
+	burst := rapid.SampledFrom([]int{0, 0, 0, 64, 32, 17, 8, 3, 2}).Draw(g.t, "batchBurst")
+	k := g.n("batchValueReplies", 1, 3)
+	onlyValues := g.pct("batchOnlyValues", 20)
+	if onlyValues {
+		n = rapid.SampledFrom([]int{3, 4, 5, 8, 12, 20, 33}).Draw(g.t, "batchOnlyValueFrames")
+		k = n
+	}
+	if k > n {
+		k = n
+	}
+	target := g.n("batchTarget", 1, k) // which of the value replies is aimed at the end of the buffer
+	delta := rapid.SampledFrom([]int{0, 1, 63, 64, -1, -63, -64, 32, 2, -32}).Draw(g.t, "batchDelta")
+	var l int
+	var q int
+	batched := false
+	if onlyValues {
+		// i-th reply of a run of equal value replies: fits exactly when i*(64+L) = 4096
+		i := rapid.SampledFrom([]int{1, 2, 3, 4, 5, 8, 12, 20}).Draw(g.t, "batchOnlyValueAt")
+		if i > n-1 {
+			i = n - 1
+		}
+		l = w13WriterBuf/i - 64 + delta/8
+		batched = true
+	} else {
+		batched, q = w13BatchIndex(n, burst, n-k)
+		// fits exactly when 64*q + target*(64+L) = 4096
+		l = (w13WriterBuf-q)/target - 64 + delta
+		_ = batched
+	}
+	if l < 6 {
+		l = 6 + g.n("batchSmall", 0, 70)
+	}
+	if l > 4200 {
+		l = 4200
+	}
+	// connection 1: the holder stores a value frame of exactly l bytes (4 length + 2 header + payload)
+	payload := make([]byte, l-6)
+	for i := range payload {
+		payload[i] = byte('a' + i%26)
+	}
+	body := append([]byte{0, 0}, payload...)
+	vf := make([]byte, 4+len(body))
+	w13Put32(vf, uint32(len(body)))
+	copy(vf[4:], body)
+	w := append(g.batchFrame(protocol.COMMAND_LOCK, 0x20, key, holder, 600, 0, 0xa1), vf...)
+	writer := w13Conn{Kind: "binary", Hex: hex.EncodeToString(w), Note: []string{fmt.Sprintf("LOCK flag=0x20 key=focus id=holder e=600 data[SET payload=%dB] (value frame %d bytes)", l-6, l)}}
+	// connection 2: the batch
+	var b []byte
+	var notes []string
+	for i := 0; i < n; i++ {
+		req := byte(i + 1)
+		if i >= n-k {
+			switch g.n("batchValueKind", 0, 3) {
+			case 0: // refused lock by another id: TIMEOUT with the value
+				b = append(b, g.batchFrame(protocol.COMMAND_LOCK, 0, key, other, 5, 0, req)...)
+				notes = append(notes, "LOCK key=focus id=other t=0 (TIMEOUT + value)")
+			case 1: // show-when-locked: UNOWN_ERROR with the holder's terms and the value
+				b = append(b, g.batchFrame(protocol.COMMAND_LOCK, 0x01, key, other, 5, 0, req)...)
+				notes = append(notes, "LOCK flag=0x01 key=focus (show + value)")
+			case 2: // unlock by a non-holder: UNOWN_ERROR with the value
+				b = append(b, g.batchFrame(protocol.COMMAND_UNLOCK, 0, key, other, 0, 0, req)...)
+				notes = append(notes, "UNLOCK key=focus id=other (UNOWN_ERROR + value)")
+			default: // the holder again: LOCKED_ERROR with the value
+				b = append(b, g.batchFrame(protocol.COMMAND_LOCK, 0, key, holder, 5, 0, req)...)
+				notes = append(notes, "LOCK key=focus id=holder (LOCKED_ERROR + value)")
+			}
+			continue
+		}
+		var fk [16]byte
+		fk[0], fk[1], fk[15] = 0xb7, byte(i), byte(i>>8)
+		if g.pct("batchPlainUnlock", 50) {
+			b = append(b, g.batchFrame(protocol.COMMAND_UNLOCK, 0, fk, other, 0, 0, req)...)
+		} else {
+			b = append(b, g.batchFrame(protocol.COMMAND_LOCK, 0, fk, other, 0, 0, req)...)
+		}
+	}
+	if n-k > 0 {
+		notes = append([]string{fmt.Sprintf("%d x LOCK(Expried 0) / UNLOCK on fresh keys (value-less replies)", n-k)}, notes...)
+	}
+	batch := w13Conn{Kind: "binary", Hex: hex.EncodeToString(b), Note: notes}
+	if burst > 0 {
+		batch.Chunks = []int{64 * burst}
+	}
+	// how does the aimed reply meet the end of the buffer (assuming the simulated fill)
+	fill := q + (target-1)*(64+l)
+	if onlyValues {
+		fill = -1
+	}
+	switch {
+	case onlyValues:
+		c.Cross = "only value replies"
+	case !batched || l+128 >= w13WriterBuf:
+		c.Cross = "not batched"
+	case fill+l <= w13WriterBuf && fill+64+l > w13WriterBuf:
+		c.Cross = "header fits, header+value does not"
+	case fill+64+l == w13WriterBuf || fill+64+l == w13WriterBuf-64:
+		c.Cross = "fits exactly"
+	case fill+64+l > w13WriterBuf:
+		c.Cross = "does not fit"
+	default:
+		c.Cross = "fits"
+	}
+	c.Shape = fmt.Sprintf("reply-batch:n=%d burst=%d k=%d target=%d L=%d", n, burst, k, target, l)
+	return []w13Conn{writer, batch}
+}
+
 // w13GenCase draws cases until one passes the domain filter (exclusions are counted).
 func w13GenCase(t *rapid.T, st *vStat) *w13Case { return w13GenCaseVariant(t, st, false) }
 
@@ -1605,7 +1774,10 @@ func w13GenCaseVariant(t *rapid.T, st *vStat, timers bool) *w13Case {
 	g.timers = timers
 	g.focus = g.pct("focusKey", 60) || timers
 	var conns []w13Conn
-	if g.pct("shapeWriterReader", 30) {
+	if !timers && g.pct("shapeReplyBatch", 12) {
+		g.focus = true
+		conns = g.genReplyBatchCase(c)
+	} else if g.pct("shapeWriterReader", 30) {
 		// writer (keeps the hold) -> reader on the other protocol (80 %) or the same one, then maybe one more
 		g.focus = true
 		wb := g.pct("writerBinary", 65)
@@ -1706,7 +1878,13 @@ func w13Classes(c *w13Case, info w13Info) (cls []string, nontrivial bool) {
 	if len(c.Conns) > 1 {
 		add("several connections")
 	}
-	if c.Shape != "" {
+	if strings.HasPrefix(c.Shape, "reply-batch") {
+		add("shape reply-batch")
+		add("reply-batch: aimed value reply " + c.Cross)
+		if c.Cross == "header fits, header+value does not" || c.Cross == "does not fit" || c.Cross == "only value replies" {
+			add("pipelined batch whose replies cross the 4096-byte writer buffer with a value reply")
+		}
+	} else if c.Shape != "" {
 		add("shape " + c.Shape)
 	}
 	for i := 1; i < len(info.Conns) && i < len(c.Conns); i++ {
